@@ -1,91 +1,164 @@
 /-
-  `Inject` — what the suite OBJECT looks like to lemoncheesecake: model of
-  `helpers/introspection.py` (`get_object_attributes` on a class instance: `dir()` + `getattr`, names
-  starting with `__` and properties left out) and of the two places of `suite/core.py` / `suite/loader.py`
-  that read it: `Suite._load_injected_fixtures(obj)` (which attributes are `lcc.inject_fixture()` markers,
-  and which fixture each stands for) and the discovery of the hooks (`hasattr(suite_obj, hook_name)`).
+  Model of how a suite's *injected fixtures* come into being (`lcc.inject_fixture(...)`):
 
-  The object is given by its attribute LAYERS, as Python stores them: the instance `__dict__` (what the
-  `__init__`s assigned) and the `__dict__`s of the classes of its MRO — the suite class itself first, then
-  its base / mixin classes.  Keys are the STORED names (private names already mangled: `__x` written in
-  `class S` is stored as `_S__x`).  `getattr(obj, a)` finds a data descriptor of the class (a property)
-  first, then the instance dict, then the class dicts in MRO order; `dir(obj)` lists the union of all keys,
-  sorted.  Where a marker is written — class body, a base class, a mixin, `__init__` — only matters through
-  this lookup.  Core Lean only.
+    * `helpers/introspection.py:get_object_attributes` — `_get_module_object_attributes` (everything
+      `dir(mod)` lists) for a module-level suite, `_get_class_object_attributes` (everything `dir(obj)`
+      lists whose name does not start with `__` and that is not a property) for a suite class instance;
+    * `suite/core.py:Suite._load_injected_fixtures` — the dict `fixture name → attribute names` built from
+      the attributes that hold an `InjectedFixture`
+      (`fixtures.setdefault(attr.fixture_name or attr_name, []).append(attr_name)`, the code as repaired by D35:
+      several attributes may inject the same fixture, every one of them receives the value);
+    * `Suite.get_injected_fixture_names`, `Suite.get_fixtures`, `Suite.inject_fixtures` and the
+      injection step of `runner.build_suite_initialization_task`.
+
+  The `injected` list of `Prepare.PSuite` / `Fixture.Suite` is no longer an input: it is DERIVED
+  (`injectedNames`) from the attribute declarations of the suite (`Attr`: the key `dir()` lists, the
+  naming shape of the identifier as written, where it is assigned, the fixture it names).  `lower`
+  maps a declared suite tree to the `PSuite` tree the validation model works on.
+
+  `dir()` (alphabetical listing), Python's name mangling of `__x` inside a class body (`_Cls__x`) and
+  "instance attributes shadow class attributes" are represented by the attribute list (given in `dir()`
+  order, keys distinct), as the layout does for C13; validated on every run by `C14.validate`.
+  The decision `discovers` is re-extracted from the real code on every run
+  (`Generated/C14TablesCheck.lean`).  Core Lean only.
 -/
-import LccModel.Model.Loader
+import LccModel.Model.Prepare
 
 namespace LccModel.Inject
-open LccModel.Loader (sortBy strLe orDefault)
+open LccModel.Loops LccModel.Prepare
 
-inductive AttrKind where
-  | inject (name : Option String)     -- an `InjectedFixture(fixture_name)` object
-  | method (params : List String)      -- a function (bound method on the instance): its parameters after `self`
-  | property                           -- a `property` object in a class dict
-  | other                              -- anything else
-  deriving DecidableEq, Repr
+/-- the naming shape of the identifier holding the `InjectedFixture`, as written in the source:
+    `x`, `_x`, `__x` (name-mangled to `_Cls__x` inside a class), `__x__` -/
+inductive Shape where
+  | pub
+  | priv
+  | mangled
+  | dunder
+deriving DecidableEq, Repr
 
-abbrev Layer := List (String × AttrKind)
+/-- where the attribute is assigned: in the body of the suite class, in the body of a base class /
+    mixin of the suite class, in `__init__` on the instance, or at the top level of a suite module -/
+inductive Place where
+  | body
+  | base
+  | init
+  | module
+deriving DecidableEq, Repr
 
-/-- the suite object as `getattr` / `dir` see it -/
-structure Obj where
-  inst : Layer := []          -- instance `__dict__`
-  mro : List Layer := []      -- class `__dict__`s, MRO order (the class itself first)
-  deriving DecidableEq, Repr
+/-- one attribute holding `lcc.inject_fixture(fixture)` -/
+structure Attr where
+  name : String              -- the key `dir()` lists (after name mangling)
+  shape : Shape
+  place : Place
+  fixture : Option String    -- `inject_fixture("f")` / `inject_fixture()`
+deriving DecidableEq, Repr
 
-/-- `d.get(a)` on one dict -/
-def layerGet (l : Layer) (a : String) : Option AttrKind := (l.find? (fun kv => kv.1 == a)).map (·.2)
+/-- `get_object_attributes` yields the attribute: a module yields everything; a class instance
+    everything whose (mangled) name does not start with `__` — a name-mangled `__x` is `_Cls__x` and
+    passes, a dunder-like `__x__` is not mangled and is dropped (D21). -/
+def discovers (sh : Shape) (pl : Place) : Bool :=
+  match pl with
+  | .module => true
+  | _ => match sh with
+    | .dunder => false
+    | _ => true
 
-/-- the first class of the MRO whose dict has the name (`_get_unbound_object_attr`) -/
-def classLookup : List Layer → String → Option AttrKind
-  | [], _ => none
-  | l :: ls, a =>
-    match layerGet l a with
-    | some k => some k
-    | none => classLookup ls a
+def Attr.discovered (a : Attr) : Bool := discovers a.shape a.place
 
-/-- `_is_property(obj, a)` -/
-def isProperty (o : Obj) (a : String) : Bool := classLookup o.mro a == some .property
+/-- `attr.fixture_name or attr_name` chooses the attribute's own name (no name given, or a falsy one) -/
+def usesAttrName (fixture : Option String) : Bool :=
+  match fixture with
+  | none => true
+  | some f => decide (f = "")
 
-/-- `getattr(obj, a)`: a property of the class wins (data descriptor), then the instance dict, then the classes -/
-def lookup (o : Obj) (a : String) : Option AttrKind :=
-  if isProperty o a then some .property
-  else match layerGet o.inst a with
-    | some k => some k
-    | none => classLookup o.mro a
+/-- `attr.fixture_name or attr_name` -/
+def Attr.key (a : Attr) : String :=
+  match a.fixture with
+  | none => a.name
+  | some f => if f = "" then a.name else f
 
-/-- `dir(obj)`: every key of every layer, once, sorted (the dunder names of `object` are filtered out just below anyway) -/
-def dirNames (o : Obj) : List String :=
-  sortBy strLe ((o.inst ++ o.mro.flatten).map (·.1)).eraseDups
+/-- `d.setdefault(k, []).append(v)` on an insertion-ordered dict: extend the entry in place, or append a new one -/
+def dictAdd : List (String × List String) → String → String → List (String × List String)
+  | [], k, v => [(k, [v])]
+  | (k', vs) :: rest, k, v => if k' = k then (k', vs ++ [v]) :: rest else (k', vs) :: dictAdd rest k v
 
-/-- the filter of `_get_class_object_attributes` -/
-def visible (o : Obj) (a : String) : Bool := !(a.startsWith "__") && !(isProperty o a)
+/-- `Suite._load_injected_fixtures(obj)` (as repaired by D35): fixture name ↦ the attribute names injecting it
+    (attributes in `dir()` order) -/
+def loadInjected (attrs : List Attr) : List (String × List String) :=
+  (attrs.filter Attr.discovered).foldl (fun d a => dictAdd d a.key a.name) []
 
-/-- `get_object_attributes(obj)` for a class instance: (name, value) in `dir()` order -/
-def attributes (o : Obj) : List (String × AttrKind) :=
-  (dirNames o).filterMap (fun a => if visible o a then (lookup o a).map (fun k => (a, k)) else none)
+/-- `Suite.get_injected_fixture_names()`: the dict's keys -/
+def injectedNames (attrs : List Attr) : List String := (loadInjected attrs).map (·.1)
 
-/-- `d[k] = v` on an insertion-ordered dict -/
-def dictSet (d : List (String × String)) (k v : String) : List (String × String) :=
-  if d.any (fun kv => kv.1 == k) then d.map (fun kv => if kv.1 == k then (k, v) else kv) else d ++ [(k, v)]
+/-- the attributes `Suite.inject_fixtures` assigns (`for attr_name in …[fixture_name]: setattr(self.obj, attr_name, value)`) -/
+def assigned (attrs : List Attr) : List String := (loadInjected attrs).flatMap (·.2)
 
-/-- one turn of the loop of `_load_injected_fixtures`: `fixtures[attr.fixture_name or attr_name] = attr_name` -/
-def injectStep (acc : List (String × String)) (av : String × AttrKind) : List (String × String) :=
-  match av.2 with
-  | .inject n => dictSet acc (orDefault n av.1) av.1
-  | _ => acc
+/-- the injection step of the suite initialisation task:
+    `suite.inject_fixtures(scheduled_fixtures.get_fixture_results(suite.get_injected_fixture_names()))`
+    → the attribute names that received their fixture's value, or the look-up error -/
+def injectStep (chain : List Fixture.Inst) (attrs : List Attr) : Except Fixture.RunErr (List String) :=
+  match forE (injectedNames attrs) (Fixture.getResult chain) with
+  | .error e => .error e
+  | .ok () => .ok (assigned attrs)
 
-/-- **`Suite._load_injected_fixtures(obj)`**: fixture name ↦ attribute name, in dict order -/
-def injectedOf (o : Obj) : List (String × String) := (attributes o).foldl injectStep []
+/-! ### declared suites -/
 
-/-- `Suite.get_injected_fixture_names()` -/
-def injectedNames (o : Obj) : List String := (injectedOf o).map (·.1)
+/-- a suite as declared: `PSuite` with attribute declarations in place of the injected names -/
+inductive DSuite where
+  | mk (path : String) (disabled : Bool) (attrs : List Attr) (setupArgs : List String)
+       (props : List (String × String)) (tags : List String)
+       (tests : List PTest) (subs : List DSuite)
+deriving Repr
 
-/-- `hasattr(suite_obj, hook)` and, for a method, `get_callable_args` of it -/
-def hookParams (o : Obj) (hook : String) : Option (List String) :=
-  match lookup o hook with
-  | some (.method ps) => some ps
-  | some _ => some []
-  | none => none
+def DSuite.path : DSuite → String | .mk p _ _ _ _ _ _ _ => p
+def DSuite.disabled : DSuite → Bool | .mk _ d _ _ _ _ _ _ => d
+def DSuite.attrs : DSuite → List Attr | .mk _ _ a _ _ _ _ _ => a
+def DSuite.setupArgs : DSuite → List String | .mk _ _ _ a _ _ _ _ => a
+def DSuite.tests : DSuite → List PTest | .mk _ _ _ _ _ _ t _ => t
+def DSuite.subs : DSuite → List DSuite | .mk _ _ _ _ _ _ _ s => s
+
+mutual
+/-- what the loader makes of a declared suite (`Suite.__init__` → `_load_injected_fixtures`) -/
+def lower : DSuite → PSuite
+  | .mk path dis attrs args props tags tests subs =>
+    .mk path dis (injectedNames attrs) args props tags tests (lowerL subs)
+def lowerL : List DSuite → List PSuite
+  | [] => []
+  | s :: rest => lower s :: lowerL rest
+end
+
+mutual
+/-- `flatten_suites` on the declared tree -/
+def flattenD : DSuite → List DSuite
+  | .mk path dis attrs args props tags tests subs => .mk path dis attrs args props tags tests subs :: flattenDL subs
+def flattenDL : List DSuite → List DSuite
+  | [] => []
+  | s :: rest => flattenD s ++ flattenDL rest
+end
+
+mutual
+/-- `flatten_suites`, each declared suite with "some ancestor suite is disabled" -/
+def withInhD (inh : Bool) : DSuite → List (Bool × DSuite)
+  | .mk path dis attrs args props tags tests subs =>
+    (inh, .mk path dis attrs args props tags tests subs) :: withInhDL (inh || dis) subs
+def withInhDL (inh : Bool) : List DSuite → List (Bool × DSuite)
+  | [] => []
+  | s :: rest => withInhD inh s ++ withInhDL inh rest
+end
+
+/-- the fixture machinery's view of a declared suite -/
+def DSuite.toFixture (d : DSuite) : Fixture.Suite := toFixtureSuite (lower d)
+
+structure DProject where
+  policy : Policy.Policy
+  decls : List Fixture.Decl
+  all : List DSuite               -- `project.load_suites()`
+  sched : List DSuite             -- the suites going to be run
+deriving Repr
+
+def DProject.lower (p : DProject) : Project := ⟨p.policy, p.decls, lowerL p.all, lowerL p.sched⟩
+
+/-- `PreparedProject.create` on the declared project -/
+def prepareD (p : DProject) : Except ValidationErr Prepared := prepare p.lower
 
 end LccModel.Inject
